@@ -595,7 +595,15 @@ def iterfit(xdata, ydata, invvar=None, upper=5, lower=5, x2=None,
         # as IDL's variance()
         #
         var = ydata.var()*(float(nx)/float(nx-1))
-        if var == 0:
+        #
+        # A variance whose inverse overflows in the precision of the data
+        # (constant single-precision data in small units) counts as zero.
+        #
+        if ydata.dtype.kind == 'f':
+            smallest = 1.0/np.finfo(ydata.dtype).max
+        else:
+            smallest = 0.0
+        if var <= smallest:
             var = 1.0
         invvar = np.ones(ydata.shape, dtype=ydata.dtype)/var
     if x2 is not None:
